@@ -68,7 +68,8 @@ def config(rng, opt=None):
     opt = opt or ["GN", "LM"][int(rng.integers(2))]
     cfg = {"opt": opt, "kernel": list(KERNELS)[int(rng.integers(len(KERNELS)))] if rng.random() < 0.5 else "none",
            "corrector": ["FastTriggs", "Triggs"][int(rng.integers(2))], "per_res": bool(rng.integers(2)),
-           "vectorize": bool(rng.integers(2)), "weight": rng.random() < 0.5, "weight_at": ["init", "step"][int(rng.integers(2))]}
+           "vectorize": bool(rng.integers(2)), "weight": rng.random() < 0.5, "weight_at": ["init", "step", "both"][int(rng.integers(3))],
+           "input_as": ["tuple", "tuple", "dict", "single"][int(rng.integers(4))]}
     if opt == "GN":
         cfg["solver"] = ["PINV", "LSTSQ"][int(rng.integers(2))]
     else:
@@ -160,12 +161,25 @@ def check_step(ck, rng, spec, cfg, case_key):
         return
     if cfg["weight"] and cfg["weight_at"] == "init":
         opt.weight = weights
+    if cfg["weight"] and cfg["weight_at"] == "both":
+        # documented: the constructor's weight "is ignored when weight is given when calling step"
+        decoy = [optmodels.spd(rng, tuple(w_.shape[:-2]), w_.shape[-1]) for w_ in (weights if isinstance(weights, (list, tuple)) else [weights])]
+        opt.weight = decoy if isinstance(weights, (list, tuple)) else decoy[0]
+        ck.mark("weight/given_at_init_and_step")
+    # the documented forms of `input`: a tensor, a tuple, or a dict of keyword arguments
+    step_input = data
+    if cfg.get("input_as") == "dict" and len(data) >= 1:
+        step_input = {f"d{i}": d_ for i, d_ in enumerate(data)}
+        ck.mark("input/dict")
+    elif cfg.get("input_as") == "single" and len(data) == 1:
+        step_input = data[0]
+        ck.mark("input/single")
     targets_list = None if target is None else (list(target) if isinstance(target, (list, tuple)) else [target])
     # ---- oracle pieces evaluated at the parameters the step is given
     Jref, r0, spread = optspy.fd_jacobian(model, data, targets_list)
     before = optspy.param_snapshot(model)
     try:
-        ret = opt.step(data, target=target, weight=weights if (cfg["weight"] and cfg["weight_at"] == "step") else None)
+        ret = opt.step(step_input, target=target, weight=weights if (cfg["weight"] and cfg["weight_at"] in ("step", "both")) else None)
     except Exception as e:  # noqa
         big = [float(e_["x"].abs().max()) for e_ in trace.of("SOLVE") if "x" in e_]
         if big and not (max(big) < 1e3):
@@ -298,7 +312,7 @@ def check_step(ck, rng, spec, cfg, case_key):
                 w_.copy_(optmodels.spd(rng, tuple(w_.shape[:-2]), w_.shape[-1]))
         start = len(trace.events)
         try:
-            opt.step(data, target=target, weight=weights if cfg["weight_at"] == "step" else None)
+            opt.step(step_input, target=target, weight=weights if cfg["weight_at"] in ("step", "both") else None)
         except Exception as e:  # noqa
             big = [float(e_["x"].abs().max()) for e_ in trace.events[start:] if e_["kind"] == "SOLVE" and "x" in e_]
             if not (big and not (max(big) < 1e3)):
@@ -328,6 +342,7 @@ def run(ck):
         check_step(ck, rng, spec, cfg, (ck.shard, i, spec["desc"]))
     for t in templates:
         ck.require("template/" + t)
-    ck.require("update/group_retraction", "update/frozen_seen", "clamp/min_binds", "clamp/max_binds", "system/second_step_after_inplace_weight_update")
+    ck.require("update/group_retraction", "update/frozen_seen", "clamp/min_binds", "clamp/max_binds", "system/second_step_after_inplace_weight_update",
+               "weight/given_at_init_and_step", "input/dict", "input/single")
     ck.floor("assemble", 30)
     ck.floor("system", 30)
